@@ -180,6 +180,20 @@ func checkUDP(info *TxInfo, u []byte, add func(string, string, ...any)) {
 		if mi, ri := m.OptIndex(1), m.OptIndex(3); mi >= 0 && ri >= 0 && mi > ri {
 			add("dhcp:mask-after-router", "subnet mask option after the router option")
 		}
+		if _, overload := m.Opt(52); !overload {
+			// RFC 2131 section 2: sname and file are null terminated strings (unless option 52 turns them into option space)
+			for _, fld := range []struct {
+				name string
+				b    []byte
+			}{{"sname", m.SName[:]}, {"file", m.File[:]}} {
+				z := bytes.IndexByte(fld.b, 0)
+				if z < 0 {
+					add("dhcp:"+fld.name+"-not-terminated", "the %s field of the DHCP message holds %d bytes without a terminating NUL: % x", fld.name, len(fld.b), fld.b[:16])
+				} else if len(bytes.Trim(fld.b[z:], "\x00")) != 0 {
+					add("dhcp:"+fld.name+"-bytes-after-terminator", "the %s field of the DHCP message has bytes behind its terminating NUL", fld.name)
+				}
+			}
+		}
 	case sp == 53 || dp == 53 || sp == 5353 || dp == 5353 || sp == 5355 || dp == 5355 || dp == 137:
 		m, err := refdec.ParseDNS(p)
 		name := map[int]string{53: "dns", 5353: "mdns", 5355: "llmnr", 137: "nbns"}[dp]
